@@ -90,14 +90,27 @@ func init() {
 	})
 	register(&PropDef{
 		ID: "C04", Quick: 5000, Thorough: 150000, Level: "exploration",
-		Rule: "single-client histories over sparse/dense/multi-block layouts with reused offsets and rows lacking columns; read transactions run generated chains of With/Without/Union/WithUnion/WithValue/WithInt/WithUint/WithFloat/WithString (indexes, value columns, missing names) and Count, the exact Range visiting order, and Sum/Avg/Min/Max of every numeric type are compared with set algebra evaluated on the model; " + ruleSeq,
+		Rule: "single-client histories over sparse/dense/multi-block layouts with reused offsets and rows lacking columns; read transactions run generated chains of With/Without/Union/WithUnion/WithValue/WithInt/WithUint/WithFloat/WithString (indexes, value columns, missing names) and Count, the exact Range visiting order, and Sum/Avg/Min/Max of every numeric type are compared with set algebra evaluated on the model; every third run (part B) runs the filter chains from reader threads while 1-3 writers commit to the filtered columns and indexes over several blocks: the visited offsets must equal the set algebra evaluated block by block on the model states captured at the moments the library took each block's read latch; " + ruleSeq,
 		Gen: func(seed uint64, run int, tier string) *Case {
 			p := seqProfile{minSteps: 5, maxSteps: 28, wTxn: 20, wCreateIndex: 2, wDropIndex: 1,
 				wInsert: 7, wAt: 6, wRange: 8, wDelete: 3, wDeleteAll: 2, wCount: 8, wAgg: 8,
 				pAbort: 0.05, pMerge: 0.2, maxCols: 6, multiBlock: 0.5, indexes: true, filters: true}
+			if run%3 == 2 {
+				// part B: filter chains run beside committing writers (updates and merges of the
+				// filtered columns over several blocks, no inserts: reserved offsets in a selection
+				// are C02's finding)
+				return genConc("C04", seed, run, concProfile{minWriters: 1, maxWriters: 3, maxTxns: 3, maxOps: 3, filterReaders: 2,
+					wUpdate: 10, wMerge: 3, wRangeWrite: 1,
+					pAbort: 0.05, multiBlock: 0.6, maxCols: 4, indexes: true, stableRows: [2]int{3, 8}}, knownAvoid("C04", seed, run))
+			}
 			return genSeq("C04", seed, run, p, knownAvoid("C04", seed, run))
 		},
-		Exec: func(cs *Case) *World { return runSeq(cs, seqOracles{dump: true}) },
+		Exec: func(cs *Case) *World {
+			if cs.World == "conc" {
+				return runConc(cs, concOracles{})
+			}
+			return runSeq(cs, seqOracles{dump: true})
+		},
 		Real: realComponents, Stub: seqStub,
 	})
 	concStub := []string{"thread scheduler (real goroutines released one at a time at repo hooks; enabledness from the real latch words)", "link: FIFO with seeded delay in front of the real commit.Channel", "disk: in-memory SimFile/SimReader under the real commit.Log and Snapshot/Restore"}
@@ -366,27 +379,49 @@ func init() {
 	})
 	register(&PropDef{
 		ID: "C16", Quick: 5000, Thorough: 150000, Level: "exploration",
-		Rule: "single-client histories over a 5-letter string alphabet (forces equal keys) across several blocks with sorted indexes created before or after the data, overwrites to an existing value, merges, delete-then-reinsert, combined with generated filter chains; every Ascend sequence must contain exactly the selected rows holding a value, each once, in non-decreasing order of the model's current values; " + ruleSeq,
+		Rule: "single-client histories over a 5-letter string alphabet (forces equal keys) across several blocks with sorted indexes created before or after the data, overwrites to an existing value, merges, delete-then-reinsert, combined with generated filter chains; every Ascend sequence must contain exactly the selected rows holding a value, each once, in non-decreasing order of the model's current values; every third run (part B) creates sorted indexes on a populated multi-block collection while 1-3 writers commit (yield point before each block of the back-fill) and checks a full Ascend at quiescence; " + ruleSeq,
 		Gen: func(seed uint64, run int, tier string) *Case {
 			p := seqProfile{minSteps: 5, maxSteps: 28, wTxn: 20, wCreateSort: 4, wDropSort: 1, wCreateIndex: 1,
 				wInsert: 8, wAt: 8, wRange: 2, wDelete: 4, wDeleteAll: 1, wAscend: 10,
 				pAbort: 0.05, pMerge: 0.3, maxCols: 4, multiBlock: 0.4, indexes: true, filters: true, smallStrings: true, sorts: true,
 				forceKinds: []Kind{KString, KEnum}}
+			if run%3 == 2 {
+				// part B: sorted indexes are created on a populated collection while writers commit
+				return genConc("C16", seed, run, concProfile{minWriters: 1, maxWriters: 3, maxTxns: 3, maxOps: 3, indexers: 1, schemaSorts: true,
+					wUpdate: 10, wMerge: 2, wInsert: 3, wDeleteOwn: 2, wRangeWrite: 1,
+					pAbort: 0.05, multiBlock: 0.6, maxCols: 3, stableRows: [2]int{2, 6}, forceKinds: []Kind{KString, KEnum}}, knownAvoid("C16", seed, run))
+			}
 			return genSeq("C16", seed, run, p, knownAvoid("C16", seed, run))
 		},
-		Exec: func(cs *Case) *World { return runSeq(cs, seqOracles{dump: true}) },
+		Exec: func(cs *Case) *World {
+			if cs.World == "conc" {
+				return runConc(cs, concOracles{})
+			}
+			return runSeq(cs, seqOracles{dump: true})
+		},
 		Real: realComponents, Stub: seqStub,
 	})
 	register(&PropDef{
 		ID: "C19", Quick: 5000, Thorough: 150000, Level: "exploration",
-		Rule: "single-client histories of puts, merges (incl. length-changing string/record merges), row deletes and rollbacks over several blocks with triggers created and dropped mid-history; after every transaction the callback log is compared, per trigger and row, with the model's committed stores (issue order, value after merge) and deletions; " + ruleSeq,
+		Rule: "single-client histories of puts, merges (incl. length-changing string/record merges), row deletes and rollbacks over several blocks with triggers created and dropped mid-history; after every transaction the callback log is compared, per trigger and row, with the model's committed stores (issue order, value after merge) and deletions; every third run (part B) creates and drops triggers (several on one column) from a schema thread while 1-3 writers commit: a block commit lying inside a trigger's life (latch taken after the creation, released before the drop) must be reported to it exactly, one that ended before the creation or started after the drop not at all, overlapping ones are not judged; " + ruleSeq,
 		Gen: func(seed uint64, run int, tier string) *Case {
 			p := seqProfile{minSteps: 5, maxSteps: 28, wTxn: 20, wCreateTrig: 5, wDropTrig: 2,
 				wInsert: 8, wAt: 10, wRange: 3, wDelete: 4, wDeleteAll: 1,
 				pAbort: 0.2, pMerge: 0.4, maxCols: 5, multiBlock: 0.5, triggers: true}
+			if run%3 == 2 {
+				// part B: triggers are created and dropped (several on one column) while writers commit
+				return genConc("C19", seed, run, concProfile{minWriters: 1, maxWriters: 3, maxTxns: 3, maxOps: 3, indexers: 1, schemaTriggers: true,
+					wUpdate: 10, wMerge: 4, wInsert: 2, wDeleteOwn: 2, wRangeWrite: 1,
+					pAbort: 0.1, multiBlock: 0.6, maxCols: 3, stableRows: [2]int{2, 6}}, knownAvoid("C19", seed, run))
+			}
 			return genSeq("C19", seed, run, p, knownAvoid("C19", seed, run))
 		},
-		Exec: func(cs *Case) *World { return runSeq(cs, seqOracles{dump: true, triggers: true}) },
+		Exec: func(cs *Case) *World {
+			if cs.World == "conc" {
+				return runConc(cs, concOracles{})
+			}
+			return runSeq(cs, seqOracles{dump: true, triggers: true})
+		},
 		Real: realComponents, Stub: seqStub,
 	})
 }
